@@ -384,9 +384,9 @@ Definition step (s : st) (o : op) : st * res :=
         let (i, e) := inner_tag (s_in s) k 0 in (invalidate s i k, RStatus e)
       else (s, RStatus NoSuchBucket)
   | OTrans k cls c =>
-      (* TransitionObjectStorageClass is NOT overridden by the middleware: delegator only *)
+      (* TransitionObjectStorageClass (overridden since c25178c): forward, then invalidate even on error *)
       if bucket_ok (fst k) then
-        let (i, e) := inner_trans (s_in s) k cls c in (with_inner s i, RStatus e)
+        let (i, e) := inner_trans (s_in s) k cls c in (invalidate s i k, RStatus e)
       else (s, RStatus NoSuchBucket)
   | OMCreate k ct meta tags cls =>
       if bucket_ok (fst k) then (with_inner s (inner_mcreate (s_in s) k ct meta tags cls), RStatus Ok)
